@@ -932,7 +932,19 @@ def cid_domain_rule(ctx):
     c09.cid_domain(ctx, rule='C17.cid-domain')
 
 
+def tx_progress(ctx):
+    from .c20 import tx_ranking
+    tx_ranking(ctx, 'C17.tx-progress')
+
+
+def regex_rule(ctx):
+    from ..generic_rules import regex_backtracking
+    regex_backtracking(ctx, 'C17.regex', ['bumble.hfp', 'bumble.at', 'bumble.transport'])
+
+
 RULES = [
+    ('C17.regex', regex_rule),
+    ('C17.tx-progress', tx_progress),
     ('C17.cid-domain', cid_domain_rule),
     ('C17.smp-sessions', smp_sessions),
     ('C17.dlc-sink', dlc_sink),
